@@ -7,19 +7,19 @@ props = [json.loads(l) for l in open(os.path.join(V, 'properties.jsonl'))]
 # id -> (technique, level text, level note, design ref)
 CHECKS = {
  "C01": ("small-scope exhaustive enumeration + proptest + numeric boundary sweep; validity predicate 'returns' under catch_unwind with overflow checks (libFuzzer target 'ops' in the thorough tier)",
-         "Exploration: every string up to length 4 over a 24/40-character alphabet holding 1-4-byte characters of every role the code branches on, millions of random strings, all surrogates / out-of-range code points and extreme offsets, each pushed through every public operation (~170 calls per string).",
+         "Exploration: every string up to length 4 over a 24/40-character alphabet holding 1-4-byte characters of every role the code branches on, ~83 000 long-input stress strings (alignment sweeps, runs, sandwiches, 70-140 KB inputs), all pairs of cased characters, hundreds of thousands to millions of random strings (one in six padded to 7..257 characters), all surrogates / out-of-range code points and extreme offsets, each pushed through every public operation (~170 calls per string).",
          "A panic is observed through catch_unwind; a hard crash of the process is isolated by a single-threaded re-run with a breadcrumb file (see ./check).",
          "DESIGN.md 3/C01"),
  "C02": ("proptest + small-scope enumeration against a reference scan (first offender, code-point positions, RFC 5892 reference rules); generated user classes",
-         "Exploration: all labels up to length 3/4 over a 30-character alphabet, millions of proptest labels for both standard classes and generated user-supplied classes (random assignments of the 7 derived-property values), compared with a reference scan that yields the set of allowed results.",
+         "Exploration: all labels up to length 3/4 over a 30-character alphabet, ZWNJ between transparent runs of every length 0..40, alignment sweeps and runs of the contextual patterns (positions up to 4100), millions of proptest labels (one in six padded) for both standard classes and generated user-supplied classes (random assignments of the 7 derived-property values), compared with a reference scan that yields the set of allowed results.",
          "Classification is the class's own get_value_from_char (C14 decides that); context truth comes from my RFC 5892 reference rules over the pinned UCD 6.3.0 data.",
          "DESIGN.md 3/C02"),
  "C03": ("exhaustive per-role sweep of all 1,114,112 code points + arrangement enumeration + proptest, against RFC 5892 App. A reference rules returning allowed-answer sets",
-         "Exploration, exhaustive in the stated sub-domains: every scalar value as the inspected neighbour of each rule role (18 templates x all 8 rule functions), every arrangement of joining classes up to length 6/7 at every position, registry sweep over all code points; random labels/positions beyond.",
+         "Exploration, exhaustive in the stated sub-domains: every scalar value as the inspected neighbour of each rule role (18 templates x all 8 rule functions), every arrangement of joining classes up to length 6/7 at every position, transparent runs up to 40 on both sides of ZWNJ, contextual patterns behind prefixes of 15..4097 characters and at every alignment 0..72, registry sweep over all code points; random labels/positions beyond.",
          "Trusts my parse of UnicodeData/Scripts/DerivedJoiningType 6.3.0 (pinned copies) and my reading of RFC 5892 App. A; 'undefined' is accepted in place of 'false' only at label edges.",
          "DESIGN.md 3/C03"),
  "C04": ("proptest with valid-biased generators against an independent pipeline model (own width table, reference IdentifierClass scan, std lowercase, ICU4X NFC, RFC 5893 rule)",
-         "Exploration: millions of generated usernames (40% accepted, >10% with two or more interacting steps) through prepare and enforce of both username profiles, compared with a fully independent model giving the set of allowed results; enforce error == prepare error.",
+         "Exploration: all strings up to length 4/5 over a 32-character alphabet in which every step has work to do, long-input batteries (alignment sweeps 0..72, combining-mark runs to 70, sandwiches, block-boundary sweeps to 4100 bytes, 70-140 KB inputs, ZWNJ runs, all composing pairs, hash-colliding pairs back to back) and millions of generated usernames (40% accepted, >10% with two or more interacting steps, one in six padded/respelled) through prepare and enforce of both username profiles, compared with a fully independent model giving the set of allowed results; enforce error == prepare error.",
          "Trusts ICU4X NFC, std char::to_lowercase, pinned UnicodeData 16.0.0/6.3.0; K1 (interior NSM) excused by exact signature only.",
          "DESIGN.md 3/C04"),
  "C05": ("proptest against an independent model + metamorphic checks (no non-ASCII Zs, NFC, byte-for-byte identity)",
